@@ -177,6 +177,119 @@ func TestVerifBoundedSPKIBuild(t *testing.T) {
 `}
 }
 
+func init() {
+	// MultiScalarMult / MultiScalarMultVartime for list lengths above the ones proved (4..8)
+	boundedHarnesses["msm_lengths"] = boundedHarness{
+		pkgDir: ".",
+		bound:  "list lengths 4..8; for each length 12 input patterns (random; a zero scalar; all scalars zero; an identity point; two equal points; P and -P with equal scalars; s and -s on equal points; receiver = last point; receiver = first point; all points the identity; all scalars N-1; the same Point object twice) x 3 deterministic seeds, both functions: 360 cases compared with the sum of ScalarMult results",
+		src: `package secp256k1
+
+import (
+	"crypto/sha256"
+	"encoding/binary"
+	"fmt"
+	"os"
+	"testing"
+)
+
+func TestVerifBoundedMSMLengths(t *testing.T) {
+	out, err := os.Create(os.Getenv("VERIF_BOUNDED_OUT"))
+	if err != nil {
+		t.Fatal(err)
+	}
+	defer out.Close()
+	ctr := uint64(0)
+	rndScalar := func() *Scalar {
+		var b [8]byte
+		ctr++
+		binary.BigEndian.PutUint64(b[:], ctr)
+		h := sha256.Sum256(b[:])
+		s, _ := NewScalarFromBytes(&h)
+		return s
+	}
+	rndPoint := func() *Point { return NewIdentityPoint().ScalarBaseMult(rndScalar()) }
+	nMinus1 := NewScalar().Negate(NewScalar().One())
+	for n := 4; n <= 8; n++ {
+		for pat := 0; pat < 12; pat++ {
+			for seed := 0; seed < 3; seed++ {
+				for fn := 0; fn < 2; fn++ {
+					ss := make([]*Scalar, n)
+					ps := make([]*Point, n)
+					for i := range ss {
+						ss[i], ps[i] = rndScalar(), rndPoint()
+					}
+					v := NewIdentityPoint()
+					switch pat {
+					case 1:
+						ss[seed%n] = NewScalar()
+					case 2:
+						for i := range ss {
+							ss[i] = NewScalar()
+						}
+					case 3:
+						ps[1+seed%(n-1)] = NewIdentityPoint()
+					case 4:
+						ps[1] = NewPointFrom(ps[0])
+					case 5:
+						ps[1] = NewIdentityPoint().Negate(ps[0])
+						ss[1] = NewScalarFrom(ss[0])
+					case 6:
+						ps[1] = NewPointFrom(ps[0])
+						ss[1] = NewScalar().Negate(ss[0])
+					case 7:
+						v = ps[n-1]
+					case 8:
+						v = ps[0]
+					case 9:
+						for i := range ps {
+							ps[i] = NewIdentityPoint()
+						}
+					case 10:
+						for i := range ss {
+							ss[i] = NewScalarFrom(nMinus1)
+						}
+					case 11:
+						ps[2] = ps[0]
+					}
+					want := NewIdentityPoint()
+					for i := range ss {
+						want.Add(want, NewIdentityPoint().ScalarMult(ss[i], ps[i]))
+					}
+					sCopy := make([]*Scalar, n)
+					pCopy := make([]*Point, n)
+					for i := range ss {
+						sCopy[i], pCopy[i] = NewScalarFrom(ss[i]), NewPointFrom(ps[i])
+					}
+					var got *Point
+					name := "MultiScalarMult"
+					if fn == 0 {
+						got = v.MultiScalarMult(ss, ps)
+					} else {
+						name = "MultiScalarMultVartime"
+						got = v.MultiScalarMultVartime(ss, ps)
+					}
+					ok, why := got == v && got.Equal(want) == 1, ""
+					if !ok {
+						why = fmt.Sprintf("got %x want %x", got.CompressedBytes(), want.CompressedBytes())
+					}
+					for i := range ss {
+						if ss[i].Equal(sCopy[i]) != 1 || (ps[i] != v && ps[i].Equal(pCopy[i]) != 1) {
+							ok, why = false, fmt.Sprintf("input %d modified", i)
+						}
+					}
+					st := "ok"
+					if !ok {
+						st = "FAIL"
+					}
+					fmt.Fprintf(out, "%s %s n=%d pattern=%d seed=%d %s\n", st, name, n, pat, seed, why)
+				}
+			}
+		}
+	}
+}
+`}
+}
+
 type boundedResult struct {
 	Harness  string   `json:"harness"`
 	Function string   `json:"function"`
